@@ -208,6 +208,60 @@ func (s *Sys) ExploreJoint(opt JointOptions) *JointResult {
 // script[step] names another index. It returns the trace, the terminal records and, per step, the
 // number of alternatives that were available (for the enumeration of deviations).
 func (s *Sys) RunScripted(script map[int]int, onStep func(prev, cur *LState, e Event, hist []Event)) (trace []Event, locals []*LState, alts []int, nw *netrun.Network, bad string) {
+	return s.RunPolicy(func(step int, evs []Event) int { return script[step] }, onStep)
+}
+
+// Directed strategies (members of the set of all schedules, named in the property text): the policy
+// sees the enabled events ordered by age and returns the index to take.
+func PolicyStarve(node int) func(step int, evs []Event) int {
+	return func(step int, evs []Event) int {
+		for i, e := range evs {
+			if e.Node != node {
+				return i
+			}
+		}
+		return 0
+	}
+}
+
+func PolicyRush(node int) func(step int, evs []Event) int {
+	return func(step int, evs []Event) int {
+		for i, e := range evs {
+			if e.Node == node {
+				return i
+			}
+		}
+		return 0
+	}
+}
+
+// PolicyLateStart postpones Start(node) as long as anything else is enabled, so that everything
+// addressed to the node is delivered before its local Start call.
+func PolicyLateStart(node int) func(step int, evs []Event) int {
+	return func(step int, evs []Event) int {
+		for i, e := range evs {
+			if !(e.Kind == 'S' && e.Node == node) {
+				return i
+			}
+		}
+		return 0
+	}
+}
+
+func PolicyLIFO(step int, evs []Event) int { return len(evs) - 1 }
+
+// PolicyFutureFirst prefers the most recently emitted message of the highest round (largest message ids sort last).
+func PolicyStartsLast(step int, evs []Event) int {
+	for i, e := range evs {
+		if e.Kind != 'S' {
+			return i
+		}
+	}
+	return 0
+}
+
+// RunPolicy executes one complete run under an arbitrary choice policy.
+func (s *Sys) RunPolicy(policy func(step int, evs []Event) int, onStep func(prev, cur *LState, e Event, hist []Event)) (trace []Event, locals []*LState, alts []int, nw *netrun.Network, bad string) {
 	nw = s.Mk()
 	per := make([][]Event, s.N)
 	locals = make([]*LState, s.N)
@@ -227,7 +281,7 @@ func (s *Sys) RunScripted(script map[int]int, onStep func(prev, cur *LState, e E
 		}
 		sort.Slice(evs, func(i, j int) bool { return age[evs[i].String()] < age[evs[j].String()] })
 		alts = append(alts, len(evs))
-		c := script[step]
+		c := policy(step, evs)
 		if c >= len(evs) {
 			bad = fmt.Sprintf("script choice %d out of range at step %d (%d enabled)", c, step, len(evs))
 			return
@@ -268,6 +322,7 @@ func scriptKey(m map[int]int) string {
 }
 
 type DevRun struct {
+	Name   string // directed strategy name ("" for scripted deviation runs)
 	Script map[int]int
 	Trace  []Event
 	Locals []*LState
@@ -278,12 +333,12 @@ type DevRun struct {
 // DeviationRuns executes every complete run with at most k deviations from FIFO (iteratively: the
 // runs with d+1 deviations extend, after their last deviation, every run with d deviations).
 func (s *Sys) DeviationRuns(k, workers int, onStep func(prev, cur *LState, e Event, hist []Event), onRun func(r *DevRun)) (runs int) {
+	var mu sync.Mutex
 	type item struct {
 		script map[int]int
 		alts   []int
 		lastDev int
 	}
-	var mu sync.Mutex
 	exec := func(scripts []map[int]int) []item {
 		out := make([]item, len(scripts))
 		var wg sync.WaitGroup
@@ -318,8 +373,45 @@ func (s *Sys) DeviationRuns(k, workers int, onStep func(prev, cur *LState, e Eve
 		wg.Wait()
 		return out
 	}
+	// directed strategies: starve / rush every node, LIFO, all deliveries before any Start
+	{
+		type named struct {
+			name string
+			pol  func(step int, evs []Event) int
+		}
+		var pols []named
+		for p := 0; p < s.N; p++ {
+			pols = append(pols, named{fmt.Sprintf("starve-node-%d", p), PolicyStarve(p)}, named{fmt.Sprintf("rush-node-%d", p), PolicyRush(p)}, named{fmt.Sprintf("late-start-node-%d", p), PolicyLateStart(p)})
+		}
+		pols = append(pols, named{"lifo", PolicyLIFO}, named{"starts-last", PolicyStartsLast})
+		var wg sync.WaitGroup
+		sem := make(chan struct{}, workers)
+		for _, np := range pols {
+			np := np
+			wg.Add(1)
+			sem <- struct{}{}
+			go func() {
+				defer wg.Done()
+				defer func() { <-sem }()
+				var stepCb func(prev, cur *LState, e Event, hist []Event)
+				if onStep != nil {
+					stepCb = func(prev, cur *LState, e Event, hist []Event) {
+						mu.Lock()
+						onStep(prev, cur, e, hist)
+						mu.Unlock()
+					}
+				}
+				tr, locals, _, nw, bad := s.RunPolicy(np.pol, stepCb)
+				mu.Lock()
+				onRun(&DevRun{Script: map[int]int{-1: 0}, Name: np.name, Trace: tr, Locals: locals, Net: nw, Bad: bad})
+				mu.Unlock()
+			}()
+		}
+		wg.Wait()
+		runs += len(pols)
+	}
 	level := exec([]map[int]int{{}})
-	runs = 1
+	runs++
 	for d := 0; d < k; d++ {
 		var scripts []map[int]int
 		for _, it := range level {
